@@ -176,8 +176,8 @@ def check(F, run, tier):
     run.add(c19.get_filename_shape(F))
     lt = F.fn("OP2Utility::StringUtility::IsEqualCaseInsensitive", nparams=2)
     from ..rules_sib import symmetric_keys, lexicographic_less
-    run.add(symmetric_keys(lt, "OP2Utility::StringUtility::IsEqualCaseInsensitive", expect_key="tolower"))
-    run.add(lexicographic_less(lt, "OP2Utility::StringUtility::IsEqualCaseInsensitive"))
+    from ..rules_sib import case_insensitive_less
+    run.add(case_insensitive_less(F, lt, "OP2Utility::StringUtility::IsEqualCaseInsensitive"))
     run.add(c19.is_equal_shape(F))
     run.add(c19.duplicate_scan(F))
     run.add(c17.lookup_loops(F))
